@@ -820,6 +820,25 @@ func ruleDefaults(c *Ctx) {
 					return false
 				})
 				construct := "default for " + p.FieldName(fv)
+				// the port range is one setting (0 is a legal lower bound): its
+				// defaults apply only to a range that is unset as a whole
+				partner := map[string]string{"ClientConfig.MinPort": "MaxPort", "ClientConfig.MaxPort": "MinPort"}[p.FieldName(fv)]
+				if guarded && partner != "" {
+					pf := p.FieldObj(modPath, "ClientConfig", partner)
+					both := pf != nil && g.OnlyViaEdge(mm, func(e *Edge) bool {
+						at, ok := edgeAtom(info, e)
+						if !ok || SelField(info, at.X) != pf || at.Kind != "cmp" {
+							return false
+						}
+						k, isK := constInt(info, at.Y)
+						return isK && k == 0 && at.Op == token.EQL
+					})
+					if !both {
+						c.R.Violate("R-DEFAULTS", p.Pos(as), f.Name, construct+" (range unset as a whole)", "the default is stored into "+p.FieldName(fv)+" although ClientConfig."+partner+" may have been configured: a range of which only one bound is set (0 is a legal lower bound) has its other bound replaced, and the plugin is handed a range the caller never asked for (possibly an empty one)", nil)
+						continue
+					}
+					c.R.Hold("R-DEFAULTS", p.Pos(as), f.Name, construct+" (range unset as a whole)", "stored only where both bounds were found zero", true)
+				}
 				if guarded {
 					c.R.Hold("R-DEFAULTS", p.Pos(as), f.Name, construct, "stored only on the edge on which this very field is unset", true)
 				} else {
